@@ -39,6 +39,25 @@ def _evaluate(e, env, bits=64):
         key = leaf_key(e)
         if key in env:
             return env[key]
+    if k == "index":
+        try:
+            base = evaluate(e[1], env, bits)
+        except Uneval:
+            base = None
+        if isinstance(base, list):
+            i = evaluate(e[2], env, bits)
+            if not isinstance(i, int) or i < 0 or i >= len(base):
+                raise Uneval("index out of range")
+            return base[i]
+    if k == "field":
+        try:
+            base = evaluate(e[1], env, bits)
+        except Uneval:
+            base = None
+        if isinstance(base, dict) and e[2] in base:
+            return base[e[2]]
+    if k == "fnref":
+        return ("$fnref", e[1])
     if k == "const":
         v = e[1]
         if isinstance(v, bool):
@@ -59,6 +78,8 @@ def _evaluate(e, env, bits=64):
             return a * b
         if op == "Div":
             if b == 0:
+                if fl and env.get("@ieee"):
+                    return float("nan") if (a == 0 or a != a) else (float("inf") if a > 0 else float("-inf"))
                 raise Uneval("div0")
             return a / b if fl else a // b
         if op == "Rem":
@@ -136,6 +157,8 @@ def _evaluate(e, env, bits=64):
         raise Uneval("contains")
     if k == "agg" and e[1] == "tuple":
         return tuple(evaluate(a, env, bits) for a in e[2])
+    if k == "agg" and e[1].startswith("closure:"):
+        return ("$closure", e[1][len("closure:"):], tuple(evaluate(a, env, bits) for a in e[2]))
     if k == "agg" and "::" in e[1]:
         return ("$variant", e[1].rsplit("::", 1)[-1])
     if k == "discr":
@@ -173,6 +196,13 @@ def _evaluate(e, env, bits=64):
                     for fk, fv in a[1]:
                         cenv["%s.%s" % (nm, fk)] = fv
                     continue
+                if nm == "self":
+                    try:
+                        sv = evaluate(a, env, bits)
+                        if isinstance(sv, (dict, list)):
+                            cenv["self"] = sv
+                    except Uneval:
+                        pass
                 if nm and nm != "self":
                     try:
                         cenv[nm] = evaluate(a, env, bits)
@@ -240,6 +270,9 @@ def seq_len(e, env, bits=64):
     key = "len(%s)" % sym.show(e)
     if key in env:
         return env[key]
+    k0 = sym.show(e)
+    if isinstance(env.get(k0), list):
+        return len(env[k0])
     if e[0] == "select":
         return seq_len(e[2] if evaluate(e[1], env, bits) else e[3], env, bits)
     if e[0] == "variant":
